@@ -91,6 +91,38 @@ def main():
             else:
                 os.replace(tmp, dst)
             replace[src] = dst
+    if os.path.exists(rw) and spec.get("tunable_consts"):
+        ttool = os.path.join(verif, "bin", "build", "tunerewrite")
+        tsrc = os.path.join(verif, "tools", "tunerewrite", "main.go")
+        if not os.path.exists(ttool) or os.path.getmtime(ttool) < os.path.getmtime(tsrc):
+            env = dict(os.environ, GOFLAGS="-mod=mod", GOPROXY="off", GOSUMDB="off", GOTOOLCHAIN="local")
+            tmpbin = "%s.%d" % (ttool, os.getpid())
+            p = subprocess.run(["go1.26.8", "build", "-o", tmpbin, "."], cwd=os.path.dirname(tsrc), capture_output=True, text=True, env=env)
+            if p.returncode != 0:
+                print("tunerewrite build failed:\n" + p.stdout + p.stderr)
+                return 2
+            os.replace(tmpbin, ttool)
+        rdir = os.path.join(outdir, "rewritten")
+        os.makedirs(rdir, exist_ok=True)
+        for rel, names in sorted(spec["tunable_consts"].items()):
+            src = os.path.join(repo, rel)
+            dst = os.path.join(rdir, rel.replace("/", "__"))
+            tmp = "%s.%d.tmp" % (dst, os.getpid())
+            p = subprocess.run([ttool, src, tmp, ",".join(names)], capture_output=True, text=True)
+            if p.returncode != 0:
+                print("tunerewrite failed on %s:\n%s%s" % (rel, p.stdout, p.stderr))
+                return 2
+            same = False
+            try:
+                with open(tmp, "rb") as a, open(dst, "rb") as b:
+                    same = a.read() == b.read()
+            except OSError:
+                pass
+            if same:
+                os.remove(tmp)
+            else:
+                os.replace(tmp, dst)
+            replace[src] = dst
     os.makedirs(outdir, exist_ok=True)
     path = os.path.join(outdir, "overlay.json")
     tmp = "%s.%d.tmp" % (path, os.getpid())
